@@ -1,272 +1,686 @@
 """C03 - transmission errors in Teletext are corrected or contained, never shown as data.
-spec/TtxAssembly.tla with FaultKinds: uncorrectable header page number (all pages in progress abandoned), uncorrectable header
-  subcode/control (terminates, opens nothing), row with parity error and packets with uncorrectable address (change nothing);
-  invariant OnlyTransmitted.  Single bit errors in Hamming protected bytes are the error-free behaviour by definition.
-MC:  all interleavings with <= 2 damaged packets.
-GEN -> REPLAY (checks/c02 machinery): damaged transmissions with the damage placed on concrete bits; every single bit of every
-  Hamming 8/4 byte and 24/18 triplet of base transmissions is flipped and the result compared with the spec and with the
-  error-free twin on the real decoder (all levels); the cache is audited for page numbers that were never transmitted."""
-import json, os, random
-from vlib import tlc, build, core, ttx
+spec/TtxFaults.tla (+ spec/TtxX26.tla): reception of pages with a fault on every received packet: uncorrectable header page
+  number (all pages in progress abandoned), subcode S1/S2, S3/S4, control bits (terminates, opens nothing); text row with an
+  uncorrectable address (nothing) or wrong parity in k = 1, 2, 3, 40 bytes, adjacent or scattered (row keeps the stored content or
+  stays blank), on first reception and on retransmission with and without erase; packets X/26 in the sub-language of TtxX26 (row
+  address / column triplets / termination) with an uncorrectable triplet at every position (this and all following triplets are
+  dropped, nothing is misplaced), uncorrectable address / designation of X/26 and X/27 (nothing); magazines 1..8 (8 = address 0),
+  four-digit (clock) subcodes.  Single bit errors in Hamming protected bytes are the error-free behaviour by definition.
+MC:  all interleavings of two magazines with <= 2 damaged packets; invariants OnlyTransmitted, EnhNotMisplaced, ...
+GEN -> REPLAY: exhaustive scenario models (one behaviour per final state and fault) and random long transmissions (tlc -simulate)
+  with the damage placed on concrete bits; at every termination point the fetched Level 1 / 1.5 page is compared cell by cell with
+  the spec (rows from TtxFormatL1, enhancement characters from TtxX26!Lands); at the end the cache must hold exactly the versions the
+  spec holds, with their content.
+TWIN: every single bit of every Hamming 8/4 byte and 24/18 triplet of base transmissions (header, rows, X/26, X/27, X/28, 8/30)
+  flipped: events, fetched pages (Level 1, 1.5, 2.5), cache content must equal the error-free run; two bit errors in the address or
+  designation byte of a non-header packet: must equal the run without that packet."""
+import json, os, random, shutil, zlib
+from vlib import tlc, core, ttx
+from vlib import build as vbuild
 from checks import c02
 
 MANIFEST = dict(
     level="model_checking",
     engine="tlc-mc+replay",
-    technique="TLA+ spec TtxAssembly with fault actions checked exhaustively by TLC (incl. OnlyTransmitted); generated damaged transmissions "
-              "replayed with the damage on concrete bits, every single bit of every Hamming protected unit of base transmissions flipped, "
-              "fetched pages compared with the specification and with the error-free twin, cache audited for foreign page numbers",
-    text="TLC explores all interleavings of two magazines with up to two damaged packets of four kinds and checks the stored pages against "
-         "the reference (a damaged row or packet changes nothing, a damaged header page number abandons the pages in progress, a damaged "
-         "header subcode only terminates) and that only transmitted page/subpage numbers are ever stored. On the real decoder: (1) every "
-         "generated damaged transmission with the damage realised as two bit errors in a Hamming byte or one parity error in a text row, "
-         "compared at every termination point; (2) for base transmissions incl. X/26 and X/27 packets every single bit of every Hamming "
-         "8/4 byte and 24/18 triplet flipped: events, stored pages (Level 1, 1.5, 2.5 fetch) must equal the error-free run; (3) after every "
-         "run the cache may hold only transmitted page numbers.",
-    note="Bounded: <= 5 packets and <= 1-2 damaged packets per behaviour. A header whose magazine/packet address is uncorrectable is not "
-         "covered (no decoder can recognise it as a header; the rows that follow are filed under the previous page). Burst errors and "
-         "dropped packets are sampled only through the damaged-packet actions.",
+    technique="TLA+ specs TtxFaults (page reception with a fault model on every packet, magazines 1..8, clock subcodes) and TtxX26 (X/26 "
+              "enhancement sub-language, lost triplets) checked exhaustively by TLC (OnlyTransmitted, EnhNotMisplaced, AddressFaultNothing, "
+              "HeaderFaultOnlyAbandons, BadRowContained); generated damaged transmissions (exhaustive scenario models + random walks) replayed "
+              "with the damage on concrete bits, fetched Level 1/1.5 pages compared cell by cell with the specification at every termination "
+              "point, final cache compared with the specification's; every single bit of every Hamming protected unit flipped and compared "
+              "with the error-free twin",
+    text="TLC explores all interleavings of two magazines (incl. magazine 8) with up to two damaged packets: uncorrectable header page number, "
+         "subcode (S1/S2, S3/S4) or control bits, rows with an uncorrectable address or parity errors in 1, 2, 3 or 40 bytes, X/26 packets with "
+         "an uncorrectable triplet at any of the 13 positions, uncorrectable designation bytes; the stored pages are checked against the "
+         "reference (only transmitted page/subpage numbers are stored, a damaged row or packet changes nothing, a damaged header only "
+         "abandons, enhancement characters are dropped, never misplaced). On the real decoder: (1) generated damaged transmissions - every "
+         "fault descriptor on first reception and on retransmission over a cached copy with and without erase, in both magazine kinds - "
+         "with the damage realised on seeded concrete bits; at every termination point the exact fetch at Level 1 and 1.5 is compared cell by "
+         "cell with the specification (enhancement characters where TtxX26 says they land), page events are counted, and at the end the "
+         "cache must contain exactly the specification's versions with the specification's content; (2) for base transmissions incl. X/26, "
+         "X/27, X/28/0 and 8/30 packets every single bit of every Hamming 8/4 byte and 24/18 triplet flipped (events incl. network events, "
+         "Level 1, 1.5, 2.5 fetches, cache content must equal the error-free run) and two bit errors in the address or designation byte of "
+         "non-header packets (must equal the run without the packet).",
+    note="Bounded: <= 7 packets per exhaustive scenario, 16 per random walk, <= 3 damaged packets per behaviour. A header whose "
+         "magazine/packet address is uncorrectable is not covered (no decoder can recognise it as a header; the rows that follow are filed "
+         "under the previous page). A page retransmitted without erase repeats the enhancement data of its stored version. Uncorrectable "
+         "triplets of X/28 and link bytes of X/27 and 8/30 data bytes are compared for single bit errors only (the statement leaves the effect "
+         "of uncorrectable data units of these packets open). Subcodes used are ones the cache stores verbatim (0, 01..79, clock codes).",
 )
 
-
-def flip(pk, byte, bits):
-    pk = list(pk)
-    for b in bits:
-        pk[byte] ^= 1 << b
-    return pk
+FAULT_ACTS = ("Header", "Filler", "Row", "X26", "Flof")
+HDR_BYTES = {"page": (2, 3), "s12": (4, 5), "s34": (6, 7), "ctrl": (8, 9)}
 
 
-def x26_packet(mag, rnd):
-    """X/26/0 with 13 triplets: set active position row 1, then characters, then termination marker"""
-    trips = [(41, 4, 0)]
-    for i in range(8):
-        trips.append((rnd.randrange(40), rnd.choice([0x0F, 0x10, 0x09]), rnd.randrange(0x20, 0x7F)))
-    while len(trips) < 13:
-        trips.append((0x3F, 0x1F, 0x7F))
+# ------------------------------------------------------------------------------------------------ row library (TtxFormatL1 by TLC)
+def setup(ctx):
+    """row library of C02 plus an all-blank row; TLC evaluates the Level 1 presentation; -> lib, tab (canonical cells, C02 format), raw"""
+    lib = c02.make_rowlib(random.Random(ctx.seed), 40) + [[0x20] * 40]
+    d = os.path.join(ctx.scratch, "fmt")
+    os.makedirs(d, exist_ok=True)
+    for f in ("TtxFormatL1.tla", "Eval_TtxFormat.tla", "Eval_TtxFormat.cfg"):
+        shutil.copy(os.path.join(tlc.SPEC, f), d)
+    rows = ",\n  ".join("<<" + ", ".join(str(c) for c in r) + ">>" for r in lib)
+    open(os.path.join(d, "RowLib.tla"), "w").write("---- MODULE RowLib ----\nRowLib == <<\n  %s >>\n====\n" % rows)
+    r = tlc.run("Eval_TtxFormat", "Eval_TtxFormat", timeout=600, workers=1, collect_tr=True, cwd=d, heap="2g")
+    ctx.add_mc(r, "EVAL TtxFormatL1 (row library)")
+    tab, raw = {}, {}
+    for e in r.tr:
+        k = (e["k"], e["nat"])
+        tab[k] = dict(cells=[c02.canon(c) for c in e["cells"]], dh=e["dh"], lower=[c02.canon(c) for c in e["lower"]])
+        raw[k] = dict(cells=[list(c) for c in e["cells"]], dh=e["dh"], lower=[list(c) for c in e["lower"]])
+    if len(tab) != 2 * len(lib):
+        raise tlc.ToolFailure("row library evaluation incomplete: %d of %d" % (len(tab), 2 * len(lib)))
+    return lib, tab, raw
+
+
+def enc(cell):
+    """the driver's compact cell format (brief = 3) of a canonical cell"""
+    u, fg, bg, fl, cn, sz = c02.canon(cell)
+    return "%04x%02x%02x%x%x%x" % (u, fg, bg, fl, cn, sz)
+
+
+def dec(s, c):
+    t = s[11 * c:11 * c + 11]
+    return [int(t[0:4], 16), int(t[4:6], 16), int(t[6:8], 16), int(t[8], 16), int(t[9], 16), int(t[10], 16)]
+
+
+def grid_strings(v, cmap, raw, blank_k, enhanced):
+    """displayed rows 1..24 of a stored version as the driver prints them; enhanced: with the characters the spec says MUST be shown
+    (v["must"]); -> (rows, may) with may = {(row, col): cell string} for the characters that MAY be shown in addition (v["shown"])"""
+    rows, prev = [], None
+    for r in range(1, 25):
+        cid = v["rows"][r - 1]
+        if prev is not None:
+            rows.append([list(c) for c in raw[prev]["lower"]]); prev = None
+            continue
+        key = (cmap[cid], v["nat"]) if cid else (blank_k, v["nat"])
+        rows.append([list(c) for c in raw[key]["cells"]])
+        if raw[key]["dh"] and r < 24:
+            prev = key
+    may = {}
+    if enhanced:
+        must = {(r, c) for (r, c, u) in v["must"]}
+        for (r, c, u) in v["shown"]:
+            if 1 <= r <= 24:
+                if (r, c) in must:
+                    rows[r - 1][c][0] = u
+                else:
+                    cell = list(rows[r - 1][c]); cell[0] = u
+                    may[(r, c)] = enc(cell)
+    return ["".join(enc(c) for c in row) for row in rows], may
+
+
+# ------------------------------------------------------------------------------------------------ packets and damage
+def x26_packet(mag, trips):
     pk = ttx.mrag(mag, 26) + [ttx.ham8(0)]
-    for a, m, d in trips:
-        pk += ttx.ham24(a | (m << 6) | (d << 11))
+    for t in trips:
+        pk += ttx.ham24(t["a"] | (t["m"] << 6) | (t["d"] << 11))
     assert len(pk) == 42
     return pk
 
 
-def build(rnd, beh, lib, tab, with_x26=False):
-    """like c02.compile_beh but returns per packet the bytes so that damage can be applied"""
-    lines, checks = c02.compile_beh(rnd, beh, lib, tab)
+def flip2(rnd, pk, byte_choices, nbits=8):
+    b = rnd.choice(list(byte_choices))
+    for bit in rnd.sample(range(nbits), 2):
+        pk[b + bit // 8] ^= 1 << (bit % 8)
+
+
+def damage(rnd, pk, act, override_cols):
+    """two bit errors in the unit the fault descriptor names / parity errors; plus now and then one (corrected) bit error elsewhere"""
+    f = act["flt"]
+    kind = f["f"]
+    pk = list(pk)
+    a = act["a"]
+    if kind == "ok":
+        return pk
+    if a in ("Header", "Filler"):
+        flip2(rnd, pk, HDR_BYTES[kind])
+        if rnd.random() < 0.3:          # a burst: one more (correctable) error in another protected byte
+            other = [b for b in range(0, 10) if b not in HDR_BYTES[kind]]
+            pk[rnd.choice(other)] ^= 1 << rnd.randrange(8)
+    elif kind == "mrag":
+        flip2(rnd, pk, (0, 1))
+    elif kind == "desig":
+        flip2(rnd, pk, (2,))
+    elif kind == "trip":
+        flip2(rnd, pk, (3 + 3 * (f["j"] - 1),), nbits=24)
+        if rnd.random() < 0.3 and f["j"] > 1:      # one corrected error in an earlier triplet
+            j2 = rnd.randrange(1, f["j"])
+            bit = rnd.randrange(24)
+            pk[3 + 3 * (j2 - 1) + bit // 8] ^= 1 << (bit % 8)
+    elif kind == "par":
+        k = f["k"]
+        free = [c for c in range(40) if c not in override_cols]
+        if k >= 40:
+            cols = list(range(40))
+        elif f["adj"]:
+            starts = [c for c in range(0, 41 - k) if all((c + i) in free for i in range(k))]
+            edge = [c for c in starts if c in (0, 40 - k)]
+            c0 = rnd.choice(edge) if edge and rnd.random() < 0.3 else rnd.choice(starts)     # first / last bytes of the row more often
+            cols = list(range(c0, c0 + k))
+        else:
+            cols = rnd.sample(free, k)
+            edge = [c for c in (0, 39) if c in free and c not in cols]
+            if edge and rnd.random() < 0.3:
+                cols[0] = rnd.choice(edge)
+        if f["adj"] and k == 2 and rnd.random() < 0.5:
+            # a two bit burst over the byte boundary: last transmitted bit of one byte, first of the next
+            pk[2 + cols[0]] ^= 0x80
+            pk[2 + cols[1]] ^= 0x01
+        else:
+            for c in cols:
+                for bit in rnd.sample(range(8), 3 if rnd.random() < 0.15 else 1):
+                    pk[2 + c] ^= 1 << bit
+    else:
+        raise ValueError(kind)
+    return pk
+
+
+def beh_rnd(seed, beh):
+    return random.Random(zlib.crc32(json.dumps(beh["steps"], sort_keys=True).encode()) ^ (seed * 7919))
+
+
+def intended_packet(a, serial, lib, cmap):
+    ctrl0 = ttx.C11_SERIAL if serial else 0
+    if a["a"] == "Header":
+        return ttx.header(a["pg"], a["sub"], ctrl0 | (ttx.C4_ERASE if a["erase"] else 0), national=a["nat"])
+    if a["a"] == "Filler":
+        return ttx.header(((a["m"] & 7) << 8) | 0xFF, 0x3F7F, ctrl0)
+    if a["a"] == "Row":
+        return ttx.row(a["m"], a["r"], lib[cmap[a["c"]] - 1])
+    if a["a"] == "X26":
+        return x26_packet(a["m"], a["trips"])
+    return c02.flof_packet(a["m"], a["l"])
+
+
+def content_map(rnd, beh, lib, tab):
+    steps = beh["steps"]
+    ndh = [k + 1 for k in range(len(lib) - 1) if not tab[(k + 1, 0)]["dh"] and not tab[(k + 1, 1)]["dh"]]
+    has_x26 = any(st["act"]["a"] == "X26" for st in steps)
+    uses24 = {st["act"]["c"] for st in steps if st["act"]["a"] == "Row" and st["act"]["r"] >= 23}
+    cmap = {}
+    for cid in (1, 2, 3):
+        cmap[cid] = rnd.choice(ndh) if (has_x26 or cid in uses24 or rnd.random() < 0.6) else rnd.randrange(1, len(lib))
+    if cmap[2] == cmap[1]:
+        cmap[2] = next(k for k in ndh if k != cmap[1])
+    return cmap
+
+
+def compile_beh(seed, beh, lib, tab, raw):
+    """-> (script lines, checks); checks: (kind, line index, expectation)"""
+    rnd = beh_rnd(seed, beh)
+    serial = beh["mode"] == "serial"
+    steps = beh["steps"]
+    blank_k = len(lib)
+    cmap = content_map(rnd, beh, lib, tab)
+    override = {}                     # row -> columns addressed by enhancement characters of any packet of this behaviour
+    for st in steps:
+        if st["act"]["a"] == "X26":
+            row = 0
+            for t in st["act"]["trips"]:
+                if t["a"] >= 40:
+                    if t["m"] in (1, 4):
+                        row = 24 if t["a"] == 40 else t["a"] - 40
+                else:
+                    override.setdefault(row, set()).add(t["a"])
+    has_x26 = bool(override)
+    lines, checks = [], []
+    pkidx = 0
+    opened = {}                       # magazine -> (pg, sub, packet index of its header)
+    intact = set()                    # keys of intact headers so far
+    pending = set()                   # keys whose latest transmission the spec has not terminated (yet, or never: abandoned)
+    for st in steps:
+        a = st["act"]
+        pk = damage(rnd, intended_packet(a, serial, lib, cmap), a, override.get(a.get("r"), ()) if a["a"] == "Row" else ())
+        lines.append("P " + ttx.hexpk(pk)); pkidx += 1
+        for v in st["term"]:
+            pending.discard((v["pg"], v["sub"]))
+        if a["a"] == "Header" and a["flt"]["f"] == "ok":
+            intact.add((a["pg"], a["sub"]))
+            pending.add((a["pg"], a["sub"]))
+        checks.append(("ev", len(lines) - 1, set(intact)))
+        for v in st["term"]:
+            hdr = opened.get(v["pg"] >> 8)
+            exp = dict(pg=v["pg"], sub=v["sub"], hdr=hdr[2] if hdr else None, at=pkidx)
+            levels = (15, 1) if (has_x26 or v["n"]) else (15,)
+            for lvl in levels:
+                lines.append("F %x %x %d 3" % (v["pg"], v["sub"], lvl))
+                grid, may = grid_strings(v, cmap, raw, blank_k, lvl == 15)
+                checks.append(("page", len(lines) - 1, dict(exp, lvl=lvl, grid=grid, may=may, count_ev=(lvl == 15))))
+            lines.append("F %x 3f7f 1 1" % v["pg"])
+            checks.append(("wild", len(lines) - 1, exp))
+            lines.append("C %x %x" % (v["pg"], v["sub"]))
+            checks.append(("cached", len(lines) - 1, None))
+        m = (a["pg"] >> 8) if a["a"] == "Header" else a["m"]
+        if a["a"] in ("Header", "Filler"):
+            if a["flt"]["f"] == "page":
+                opened.clear()
+            elif a["a"] == "Header" and a["flt"]["f"] == "ok":
+                opened[m] = (a["pg"], a["sub"], pkidx)
+            else:
+                opened.pop(m, None)
+    # final audit: the cache holds exactly the spec's versions (serial mode: the decoder may have stored pages in transmission earlier)
+    lines.append("L")
+    open_keys = {tuple(k) for k in beh["open"]}
+    checks.append(("audit", len(lines) - 1, dict(keys={(v["pg"], v["sub"]) for v in beh["final"]}, serial=serial, intact=set(intact), open=open_keys)))
+    for v in sorted(beh["final"], key=lambda v: (v["pg"], v["sub"])):
+        if serial and (v["pg"], v["sub"]) in pending:
+            continue                  # retransmitted and not terminated by its own magazine (or abandoned): in serial mode the
+                                      # decoder may already hold the newer version (it may store earlier, never later)
+        lines.append("F %x %x 15 3" % (v["pg"], v["sub"]))
+        grid, may = grid_strings(v, cmap, raw, blank_k, True)
+        checks.append(("page", len(lines) - 1, dict(pg=v["pg"], sub=v["sub"], lvl=15, grid=grid, may=may, count_ev=False, final=True)))
     return lines, checks
 
 
-def apply_damage(rnd, lines, beh):
-    """realise the damaged packets of a generated behaviour on concrete bits; lines from c02.compile_beh"""
-    out = list(lines)
-    pidx = [i for i, l in enumerate(out) if l.startswith("P ")]
-    for k, st in enumerate(beh["steps"]):
-        a = st["act"]
-        i = pidx[k]
-        pk = list(bytes.fromhex(out[i][2:]))
-        if a["a"] == "HeaderPageBad":
-            pk = flip(pk, rnd.choice([2, 3]), rnd.sample(range(8), 2))
-        elif a["a"] == "HeaderCtrlBad":
-            pk = flip(pk, rnd.choice([4, 5, 6, 7, 8, 9]), rnd.sample(range(8), 2))
-        elif a["a"] == "RowBad" and a["kind"] == "rpar":
-            for _ in range(rnd.choice([1, 1, 3])):
-                pk = flip(pk, rnd.randrange(2, 42), [rnd.randrange(8)])
-            if all(bin(b).count("1") % 2 == 1 for b in pk[2:]):     # an even number of flips in one byte: make sure one byte is bad
-                pk = flip(pk, 2, [0])
-        elif a["a"] == "RowBad" and a["kind"] == "mrag":
-            pk = flip(pk, rnd.choice([0, 1]), rnd.sample(range(8), 2))
+def compare(lines, checks, got):
+    """-> None or (key, detail)"""
+    if len(got) < len(lines):
+        return ("diverge:crash", "driver stopped after %d of %d commands" % (len(got), len(lines)))
+    events, pk = [], 0
+    row0 = {}
+    for kind, i, e in checks:
+        g = got[i]
+        if kind == "ev":
+            pk += 1
+            for pg, sub in g["ev"]:
+                events.append((pk, pg, sub))
+                if (pg, sub) not in e:
+                    return ("diverge:events:foreign", "packet %d: page event for %x/%x, no intact header with this number was sent; events %s" % (pk, pg, sub, events))
+        elif kind == "cached":
+            if not g["cached"]:
+                return ("diverge:is_cached", "vbi_is_cached is false for a page the spec says is stored (%s)" % lines[i])
+        elif kind == "wild":
+            if not g["ok"]:
+                return ("diverge:fetch:not-cached", "%s: page %x must be stored at this point" % (lines[i], e["pg"]))
+            if g["pgno"] != e["pg"] or g["subno"] != e["sub"]:
+                return ("diverge:fetch:wrong-version", "%s: spec %x/%x, fetched %x/%x" % (lines[i], e["pg"], e["sub"], g["pgno"], g["subno"]))
+        elif kind == "audit":
+            stored = {(p, s) for p, s in g["pages"]}
+            missing = e["keys"] - stored
+            if e["serial"]:
+                extra = stored - e["keys"] - e["intact"]
+            else:
+                extra = stored - e["keys"]
+            foreign = stored - e["intact"]
+            if foreign:
+                return ("diverge:foreign-page", "pages stored under numbers never transmitted: %s (transmitted: %s)"
+                        % (["%x/%x" % k for k in sorted(foreign)], ["%x/%x" % k for k in sorted(e["intact"])]))
+            if extra:
+                return ("diverge:stored-abandoned", "the cache holds %s, the spec's cache only %s: a page that was abandoned (or whose header was "
+                        "lost) has been stored" % (["%x/%x" % k for k in sorted(stored)], ["%x/%x" % k for k in sorted(e["keys"])]))
+            if missing:
+                return ("diverge:lost-page", "the spec's cache holds %s, the decoder's only %s" % (["%x/%x" % k for k in sorted(e["keys"])], ["%x/%x" % k for k in sorted(stored)]))
         else:
-            continue
-        out[i] = "P " + ttx.hexpk(pk)
-    return out
+            ln = lines[i]
+            where = "final " if e.get("final") else ""
+            if not g["ok"]:
+                return ("diverge:fetch:not-cached", "%s%s: page %x/%x must be stored at this point" % (where, ln, e["pg"], e["sub"]))
+            if g["pgno"] != e["pg"] or g["subno"] != e["sub"]:
+                return ("diverge:fetch:wrong-version", "%s%s: spec %x/%x, fetched %x/%x" % (where, ln, e["pg"], e["sub"], g["pgno"], g["subno"]))
+            for r in range(1, 25):
+                er, gr = e["grid"][r - 1], g["rows"][r]
+                if er == gr[:440]:
+                    continue
+                for c in range(40):
+                    ec, gc = dec(er, c), dec(gr, c)
+                    if ec != gc and e["may"].get((r, c)) != gr[11 * c:11 * c + 11]:
+                        what = ["char", "foreground", "background", "flash", "conceal", "size"][next(k for k in range(6) if ec[k] != gc[k])]
+                        return ("diverge:fetch%s:%s" % ("15" if e["lvl"] == 15 else "", what),
+                                "%s%s row %d column %d: spec %s, fetched %s" % (where, ln, r, c, ec, gc))
+            row0.setdefault((i if e.get("final") else e["at"], e["pg"], e["sub"]), {})[e["lvl"]] = g["rows"][0]
+            if e.get("count_ev"):
+                n = sum(1 for (k, pg, sub) in events if pg == e["pg"] and sub == e["sub"] and (e["hdr"] or 0) < k <= e["at"])
+                if n != 1:
+                    return ("diverge:events:%d" % n, "%s: %d page events for %x/%x between its header (packet %s) and its termination (packet %d); all events: %s"
+                            % (ln, n, e["pg"], e["sub"], e["hdr"], e["at"], events))
+    for k, d in row0.items():
+        if 1 in d and 15 in d and d[1] != d[15]:
+            return ("diverge:fetch15:header-row", "page %x/%x: the header row differs between the Level 1 and the Level 1.5 fetch (an enhancement character landed in row 0)" % (k[1], k[2]))
+    return None
 
 
-def compile_faulty(rnd, beh, lib, tab):
-    # the damaged actions are compiled as their intended packets first
-    b2 = dict(beh)
-    steps = []
-    for st in beh["steps"]:
-        a = dict(st["act"])
-        if a["a"] in ("HeaderPageBad", "HeaderCtrlBad"):
-            a2 = dict(a="Header", pg=a["pg"], sub=1 if a["pg"] in (257, 2201) else 0, erase=False, nat=0)
-        elif a["a"] == "RowBad":
-            a2 = dict(a="Row", m=a["m"], r=a["r"], c=a["c"])
-        else:
-            a2 = a
-        steps.append(dict(act=a2, term=st["term"]))
-    b2["steps"] = steps
-    lines, checks = c02.compile_beh(rnd, b2, lib, tab)
-    return apply_damage(rnd, lines, beh), checks
+def fkey(f):
+    if f["f"] == "par":
+        return "par%d%s" % (f["k"], "a" if f["adj"] else "")
+    if f["f"] == "trip":
+        return "trip"
+    return f["f"]
 
 
-def transmitted_keys(beh):
-    s = set()
+def faults_of(beh):
+    return [(st["act"]["a"], st["act"]["flt"]) for st in beh["steps"] if st["act"]["flt"]["f"] != "ok"]
+
+
+def fault_sig(beh):
+    return "+".join(sorted({"%s.%s" % (a, fkey(f)) for a, f in faults_of(beh)})) or "none"
+
+
+def shape(beh):
+    """stratum of a behaviour: action kinds, faults (with triplet position), erase flags, magazines - not page numbers / contents"""
+    out = []
     for st in beh["steps"]:
         a = st["act"]
-        if a["a"] == "Header":
-            s.add((a["pg"], a["sub"]))
-    return s
+        s = a["a"][0] + ("e" if a.get("erase") else "")
+        if a["flt"]["f"] != "ok":
+            s += ":" + fkey(a["flt"]) + (str(a["flt"]["j"]) if a["flt"]["f"] == "trip" else "")
+        m = (a["pg"] >> 8) if a["a"] == "Header" else a["m"]
+        out.append(s + ("8" if m == 8 else ""))
+    return beh["mode"][0] + " " + " ".join(out)
 
 
-def run_faulty(ctx, drv, behs, lib, tab):
-    rnd = random.Random(ctx.seed * 17 + 3)
-    comp = [compile_faulty(rnd, b, lib, tab) for b in behs]
-    chunks = [list(range(k, len(behs), 16)) for k in range(16)]
+def stratified(behs, per_shape, cap, seed):
+    rnd = random.Random(seed * 101 + 7)
+    groups = {}
+    for b in behs:
+        groups.setdefault(shape(b), []).append(b)
+    out = []
+    for k in sorted(groups):
+        g = groups[k]
+        rnd.shuffle(g)
+        out.append(g[:per_shape])
+    # interleave the strata so that a cap keeps all of them represented as far as possible
+    rnd.shuffle(out)
+    flat = [b for i in range(per_shape) for g in out if i < len(g) for b in [g[i]]]
+    return flat[:cap] if cap else flat
+
+
+def run_faulty(ctx, drv, behs, lib, tab, raw, label):
+    comp = [compile_beh(ctx.seed, b, lib, tab, raw) for b in behs]
+    nchunk = 16
+    chunks = [list(range(k, len(behs), nchunk)) for k in range(nchunk)]
 
     def job(idx):
-        return (idx, core.run_seq_driver([drv], [comp[i][0] + ["L"] for i in idx], env=build_env(), timeout=1200)) if idx else (idx, [])
-    for idx, res in core.pmap(job, chunks):
+        return (idx, core.run_seq_driver([drv], [comp[i][0] for i in idx], env=vbuild.san_env(), timeout=1500)) if idx else (idx, [])
+    nbad = 0
+    for idx, res in core.pmap(job, chunks, workers=8):
         for j, i in enumerate(idx):
             r = res[j]
             if r.get("skipped"):
                 continue
             lines, checks = comp[i]
             beh = behs[i]
-            ctx.count_case(lines, nontrivial=any(st["act"]["a"] in ("HeaderPageBad", "HeaderCtrlBad", "RowBad") for st in beh["steps"]))
+            ctx.count_case(lines, nontrivial=bool(faults_of(beh)))
             rp = dict(kind="faulty", script=lines, beh=beh, seed=ctx.seed)
-            bad = c02.compare(lines, checks, r["lines"])
-            if bad is None and len(r["lines"]) > len(lines):
-                stored = {(p, s) for p, s in r["lines"][len(lines)]["pages"]}
-                foreign = stored - transmitted_keys(beh)
-                # intended numbers of damaged headers are transmitted numbers too
-                foreign = {k for k in foreign if k[0] not in (256, 257, 512, 399, 2201)}
-                if foreign:
-                    bad = ("diverge:foreign-page", "pages stored under numbers never transmitted: %s" % sorted(foreign))
+            if r["stderr"] and r["crashed"]:
+                core.report_sanitizers(ctx, r["stderr"], replay=rp, in_scope=False)
+            bad = compare(lines, checks, r["lines"])
+            if bad is not None and bad[0] == "diverge:crash" and r["stderr"]:
+                bad = (bad[0], bad[1] + "\n" + r["stderr"].strip()[-500:])
             if bad is None:
                 ctx.validated()
             else:
-                ctx.violate("replay", bad[0] + ":" + "+".join(sorted({st["act"]["a"] for st in beh["steps"] if st["act"]["a"] not in ("Header", "Row", "Filler", "Flof")})),
-                            bad[1] + "\nactions: %s" % [st["act"] for st in beh["steps"]], rp)
+                nbad += 1
+                ctx.violate("replay", bad[0] + ":" + fault_sig(beh),
+                            bad[1] + "\nmode %s, packets: %s" % (beh["mode"], [brief_act(st["act"]) for st in beh["steps"]]), rp)
+    return nbad
 
 
-def build_env():
-    from vlib import build as b
-    return b.san_env()
+def brief_act(a):
+    a = {k: v for k, v in a.items() if k != "trips"}
+    if a["flt"]["f"] == "ok":
+        a.pop("flt")
+    return a
 
 
-def single_bit_pass(ctx, drv, bases, lib, tab, per_base):
-    """every single bit of every Hamming protected unit: the run must equal the error-free twin"""
-    rnd = random.Random(ctx.seed * 13 + 1)
-    jobs = []      # (script, description)
-    for beh in bases:
-        lines, checks = c02.compile_beh(rnd, beh, lib, tab)
-        # add an X/26 packet behind the first header of magazine 1 or 2 so that triplets are covered
-        pidx = [i for i, l in enumerate(lines) if l.startswith("P ")]
-        first_hdr = next((k for k, st in enumerate(beh["steps"]) if st["act"]["a"] == "Header"), None)
-        if first_hdr is not None and beh["mode"] == "parallel":
-            m = beh["steps"][first_hdr]["act"]["pg"] >> 8
-            lines.insert(pidx[first_hdr] + 1, "P " + ttx.hexpk(x26_packet(m, rnd)))
-            pidx = [i for i, l in enumerate(lines) if l.startswith("P ")]
-        # level 1.5 and 2.5 fetches of every page at the end (differential)
-        tail = []
-        for pg in (0x100, 0x101, 0x200):
-            for lvl in (1, 15, 25):
-                tail.append("F %x 3f7f %d" % (pg, lvl))
-        clean = lines + tail + ["L"]
-        units = []
-        for i in pidx:
-            pk = list(bytes.fromhex(lines[i][2:]))
-            mag_pk = (ttx_unham(pk[0]), ttx_unham(pk[1]))
-            pno = ((mag_pk[0] >> 3) & 1) | (mag_pk[1] << 1)
-            hbytes = [0, 1]
-            trip = []
-            if pno == 0:
-                hbytes += list(range(2, 10))
-            elif pno == 26:
-                hbytes += [2]
-                trip = [3 + 3 * t for t in range(13)]
-            elif pno == 27:
-                hbytes += list(range(2, 40))
-            for b in hbytes:
-                for bit in range(8):
-                    units.append((i, [(b, bit)]))
-            for t0 in trip:
-                for bit in range(24):
-                    units.append((i, [(t0 + bit // 8, bit % 8)]))
-        rnd.shuffle(units)
-        for (i, flips) in units[:per_base]:
-            v = list(clean)
-            pk = list(bytes.fromhex(v[i][2:]))
-            for b, bit in flips:
-                pk[b] ^= 1 << bit
-            v[i] = "P " + ttx.hexpk(pk)
-            jobs.append((v, clean, "packet %d byte/bit %s" % (pidx.index(i) + 1, flips), beh))
-    cleans = {}
-    scripts = []
-    for v, clean, d, beh in jobs:
-        key = json.dumps(clean)
-        if key not in cleans:
-            cleans[key] = len(scripts); scripts.append(clean)
-    base_n = len(scripts)
-    scripts += [j[0] for j in jobs]
-    chunks = [list(range(k, len(scripts), 16)) for k in range(16)]
+# ------------------------------------------------------------------------------------------------ twin pass
+def rev8(b):
+    return int("{:08b}".format(b)[::-1], 2)
 
-    def job(idx):
-        return (idx, core.run_seq_driver([drv], [scripts[i] for i in idx], env=build_env(), timeout=1200)) if idx else (idx, [])
-    out = [None] * len(scripts)
-    for idx, res in core.pmap(job, chunks):
-        for j, i in enumerate(idx):
-            out[i] = res[j]
-    for n, (v, clean, d, beh) in enumerate(jobs):
-        a = out[cleans[json.dumps(clean)]]
-        b = out[base_n + n]
-        ctx.count_case(v, nontrivial=True)
-        if a is None or b is None or a.get("skipped") or b.get("skipped"):
-            continue
-        if a["lines"] == b["lines"] and len(b["lines"]) == len(v):
-            ctx.validated()
-        else:
-            k = next((i for i in range(min(len(a["lines"]), len(b["lines"]))) if a["lines"][i] != b["lines"][i]), min(len(a["lines"]), len(b["lines"])))
-            what = v[k].split()[0] if k < len(v) else "end"
-            ctx.violate("replay", "single-bit:%s" % {"P": "events", "F": "fetch", "C": "is_cached", "L": "cache-content"}.get(what, what),
-                        "one corrected bit error (%s) changes the result of command %d (%s)\nactions: %s" % (d, k + 1, v[k][:60] if k < len(v) else "", [st["act"] for st in beh["steps"]]),
-                        dict(kind="single-bit", script=v, clean=clean))
-    return len(jobs)
+
+def p830(designation, rnd):
+    """packet 8/30 format 1 (designation 0/1) or 2 (2/3), EN 300 706 9.8"""
+    pk = ttx.mrag(8, 30) + [ttx.ham8(designation)]
+    pg, sub = 0x100, 0x3F7F
+    pk += [ttx.ham8(pg & 15), ttx.ham8((pg >> 4) & 15), ttx.ham8(sub & 15), ttx.ham8((sub >> 4) & 7),
+           ttx.ham8((sub >> 8) & 15), ttx.ham8((sub >> 12) & 3)]
+    if designation < 2:
+        ni = rnd.choice([0x4901, 0x3E00, 0x2C2F])
+        pk += [rev8(ni >> 8), rev8(ni & 0xFF)]
+        pk += [0x02 | 0x80 | 0x01]                                   # time offset +0.5 h
+        mjd = [4, 5, 8, 0, 0]                                          # MJD 58000... each digit + 1
+        pk += [(mjd[0] + 1), ((mjd[1] + 1) << 4) | (mjd[2] + 1), ((mjd[3] + 1) << 4) | (mjd[4] + 1)]
+        pk += [0x13, 0x24, 0x35]                                       # UTC 12:23:24, digits + 1
+        pk += [0, 0, 0, 0]
+    else:
+        for k in range(13):
+            pk.append(ttx.ham8(rnd.randrange(16)))
+    pk += [ttx.par8(ord(c)) for c in "ZVBI VERIF STATUS   "]
+    assert len(pk) == 42, len(pk)
+    return pk
+
+
+def p28(mag, rnd):
+    """X/28/0 format 1: page function LOP, coding 0, character sets, colour map entries 16..31, default colours"""
+    bits = []
+
+    def put(v, n):
+        for i in range(n):
+            bits.append((v >> i) & 1)
+    put(0, 4); put(0, 3)
+    put(0, 7); put(0, 7)            # default / second G0-G2 designation: Latin, no national option override
+    put(0, 1); put(0, 1); put(0, 1); put(0, 4)
+    for i in range(16):
+        put(rnd.randrange(4096), 12)
+    put(rnd.randrange(32), 5); put(rnd.randrange(32), 5); put(0, 1); put(rnd.randrange(8), 3)
+    while len(bits) < 13 * 18:
+        bits.append(0)
+    pk = ttx.mrag(mag, 28) + [ttx.ham8(0)]
+    for t in range(13):
+        v = sum(bits[t * 18 + i] << i for i in range(18))
+        pk += ttx.ham24(v)
+    assert len(pk) == 42
+    return pk
 
 
 _INV = {ttx.ham8(i): i for i in range(16)}
 
 
-def ttx_unham(b):
-    return _INV.get(b, 0)
+def units_of(pk):
+    """Hamming protected units of an intact packet: ([8/4 bytes], [first byte of 24/18 triplets], kind)"""
+    a0, a1 = _INV[pk[0]], _INV[pk[1]]
+    pno = ((a0 >> 3) & 1) | (a1 << 1)
+    hb, trip = [0, 1], []
+    if pno == 0:
+        hb += list(range(2, 10))
+    elif pno in (26, 28):
+        hb += [2]
+        trip = [3 + 3 * t for t in range(13)]
+    elif pno == 27:
+        hb += list(range(2, 40))
+    elif pno == 30:
+        hb += list(range(2, 9))
+        if _INV[pk[2]] >= 2:
+            hb += list(range(9, 22))
+    return hb, trip, pno
+
+
+def twin_pass(ctx, drv, bases, lib, tab, per_base, err2_per_base):
+    """one bit error in a protected unit = the error-free run; two bit errors in the address / designation of a non-header packet =
+    the run without the packet"""
+    rnd = random.Random(ctx.seed * 13 + 1)
+    scripts, jobs = [], []         # jobs: (variant script index, twin script index, skip position in twin or None, description, beh)
+    for beh in bases:
+        brnd = beh_rnd(ctx.seed, beh)
+        cmap = content_map(brnd, beh, lib, tab)
+        serial = beh["mode"] == "serial"
+        pks = [intended_packet(st["act"], serial, lib, cmap) for st in beh["steps"]]
+        # X/28/0 behind the first header; 8/30 format 1 and 2 anywhere
+        hdr = next((k for k, st in enumerate(beh["steps"]) if st["act"]["a"] == "Header"), None)
+        if hdr is not None:
+            pks.insert(hdr + 1, p28(beh["steps"][hdr]["act"]["pg"] >> 8, rnd))
+        pks.insert(rnd.randrange(len(pks) + 1), p830(rnd.choice([0, 1]), rnd))
+        pks.insert(rnd.randrange(len(pks) + 1), p830(rnd.choice([2, 3]), rnd))
+        pages = sorted({st["act"]["pg"] for st in beh["steps"] if st["act"]["a"] == "Header"})
+        tail = ["F %x 3f7f %d 2" % (pg, lvl) for pg in pages for lvl in (1, 15, 25)] + ["L"]
+        clean = ["V"] + ["P " + ttx.hexpk(p) for p in pks] + tail
+        ci = len(scripts); scripts.append(clean)
+        units, err2 = [], []
+        for i, pk in enumerate(pks):
+            hb, trip, pno = units_of(pk)
+            for b in hb:
+                for bit in range(8):
+                    units.append((i, [(b, bit)]))
+            for t0 in trip:
+                for bit in range(24):
+                    units.append((i, [(t0 + bit // 8, bit % 8)]))
+            if pno != 0:
+                for b in ([0, 1] + ([2] if pno in (26, 27, 28, 30) else [])):
+                    for b1 in range(8):
+                        for b2 in range(b1 + 1, 8):
+                            err2.append((i, [(b, b1), (b, b2)]))
+        rnd.shuffle(units); rnd.shuffle(err2)
+        for (i, flips) in units[:per_base]:
+            pk = list(pks[i])
+            for b, bit in flips:
+                pk[b] ^= 1 << bit
+            v = list(clean); v[1 + i] = "P " + ttx.hexpk(pk)
+            scripts.append(v)
+            jobs.append((len(scripts) - 1, ci, None, "one bit error: packet %d byte/bit %s" % (i + 1, flips), beh))
+        dropped = {}
+        for (i, flips) in err2[:err2_per_base]:
+            pk = list(pks[i])
+            for b, bit in flips:
+                pk[b] ^= 1 << bit
+            v = list(clean); v[1 + i] = "P " + ttx.hexpk(pk)
+            scripts.append(v)
+            vi = len(scripts) - 1
+            if i not in dropped:
+                d = list(clean); del d[1 + i]
+                scripts.append(d); dropped[i] = len(scripts) - 1
+            jobs.append((vi, dropped[i], 1 + i, "two bit errors in the address/designation: packet %d byte/bits %s" % (i + 1, flips), beh))
+    nchunk = 16
+    chunks = [list(range(k, len(scripts), nchunk)) for k in range(nchunk)]
+
+    def job(idx):
+        return (idx, core.run_seq_driver([drv], [scripts[i] for i in idx], env=vbuild.san_env(), timeout=1500)) if idx else (idx, [])
+    out = [None] * len(scripts)
+    for idx, res in core.pmap(job, chunks, workers=8):
+        for j, i in enumerate(idx):
+            out[i] = res[j]
+    for (vi, ti, skip, d, beh) in jobs:
+        a, b = out[ti], out[vi]
+        v = scripts[vi]
+        ctx.count_case(v, nontrivial=True)
+        if a is None or b is None or a.get("skipped") or b.get("skipped"):
+            continue
+        bl = list(b["lines"])
+        vv = list(v)
+        if skip is not None and len(bl) > skip:
+            # the damaged packet must have had no effect at all: no events of its own, everything else as without it
+            own = bl[skip]
+            del bl[skip]; del vv[skip]
+            if own.get("ev") or own.get("ev2"):
+                ctx.violate("replay", "twin:err2:events", "%s raises events %s\npackets: %s" % (d, own, [brief_act(st["act"]) for st in beh["steps"]]),
+                            dict(kind="twin", script=v, clean=scripts[ti], skip=skip))
+                continue
+        if a["lines"] == bl and len(bl) == len(vv):
+            ctx.validated()
+        else:
+            n = min(len(a["lines"]), len(bl))
+            k = next((i for i in range(n) if a["lines"][i] != bl[i]), n)
+            what = vv[k].split()[0] if k < len(vv) else "end"
+            ctx.violate("replay", "twin:%s:%s" % ("err2" if skip is not None else "single-bit", {"P": "events", "F": "fetch", "L": "cache-content"}.get(what, what)),
+                        "%s changes the result of command %d (%s): %s instead of %s\npackets: %s"
+                        % (d, k + 1, vv[k][:60] if k < len(vv) else "", str(bl[k])[:200] if k < len(bl) else None,
+                           str(a["lines"][k])[:200] if k < len(a["lines"]) else None, [brief_act(st["act"]) for st in beh["steps"]]),
+                        dict(kind="twin", script=v, clean=scripts[ti], skip=skip))
+    return len(jobs)
+
+
+# ------------------------------------------------------------------------------------------------ run
+QUICK_GEN = [  # (cfg, behaviours per stratum, cap)
+    ("Gen_TtxFaults_retx8", 2, 700),
+    ("Gen_TtxFaults_retx1", 1, 400),
+    ("Gen_TtxFaults_mags", 1, 900),
+    ("Gen_TtxFaults_x26", 1, 500),
+]
+THOROUGH_GEN = [
+    ("Gen_TtxFaults_retx8", 40, 0),
+    ("Gen_TtxFaults_retx1", 40, 0),
+    ("Gen_TtxFaults_mags_t", 2, 0),
+    ("Gen_TtxFaults_x26_t", 20, 0),
+    ("Gen_TtxFaults_retxx", 20, 0),
+]
 
 
 def run(ctx):
     quick = ctx.tier == "quick"
-    ctx.cov["rule"] = ("cases = damaged transmissions (generated from TtxAssembly with fault actions, damage on seeded concrete bits) and single-bit "
-                       "variants of base transmissions (every bit of every Hamming 8/4 byte and 24/18 triplet, sampled per base in the quick tier); "
-                       "distinct by packet bytes; non-trivial = contains a damaged packet")
-    ctx.assumptions += ["a header whose magazine/packet address bytes are uncorrectable is outside the statement's reach"]
-    from vlib import build as b
-    drv = b.build_driver("drv_ttx")
-    lib, tab = c02.setup(ctx)
-    r = tlc.run("MC_TtxAssembly", "MC_TtxFaults_q" if quick else "MC_TtxFaults_t", timeout=2400, coverage=not quick, heap="16g")
+    ctx.cov["rule"] = ("cases = damaged transmissions (generated from TtxFaults: exhaustive scenario models, one behaviour per final state and fault, "
+                       "sampled per stratum = sequence of packet kinds / fault descriptors / erase flags / magazine kind in the quick tier, and random "
+                       "walks; damage on seeded concrete bits) and single-bit / address-fault variants of base transmissions (every bit of every "
+                       "Hamming 8/4 byte and 24/18 triplet, sampled per base in the quick tier); distinct by packet bytes; non-trivial = contains a "
+                       "damaged packet")
+    ctx.assumptions += ["a header whose magazine/packet address bytes are uncorrectable is outside the statement's reach",
+                        "a page retransmitted without the erase flag repeats the enhancement data (X/26) of its stored version",
+                        "a damaged parity byte has an odd number of bit errors (an even number is undetectable by any decoder)",
+                        "consistent header text (no channel switch inferred)"]
+    drv = vbuild.build_driver("drv_ttx")
+    lib, tab, raw = setup(ctx)
+
+    def mc(args):
+        return tlc.run(*args[0], **args[1])
+    runs = [(("MC_TtxFaults", "MC_TtxFaults_q" if quick else "MC_TtxFaults_t"), dict(timeout=2400, workers=6, heap="8g"))]
+    for cfg, per, cap in (QUICK_GEN if quick else THOROUGH_GEN):
+        runs.append((("Gen_TtxFaults", cfg), dict(timeout=2400, workers=3 if quick else 6, collect_tr=True, heap="4g")))
+    runs.append((("Gen_TtxFaults", "Gen_TtxFaults_sim"), dict(timeout=2400, workers=1, collect_tr=True, heap="4g", simulate=12 if quick else 200,
+                                                               depth=17, seed=ctx.seed, max_tr=400 if quick else 6000)))
+    res = core.pmap(mc, runs, workers=3 if quick else 2)
+    r = res[0]
     ctx.add_mc(r, "MC TtxFaults")
     if r.violation:
         ctx.violate("mc", "mc:%s:%s" % (r.violation["kind"], r.violation["name"]), r.violation["text"][:3000])
-    g = tlc.run("Gen_TtxAssembly", "Gen_TtxFaults_q", timeout=2400, collect_tr=True, heap="16g", sample_tr=(40, ctx.seed) if quick else (6, ctx.seed))
-    ctx.add_mc(g, "GEN TtxFaults")
-    faulty = [t for t in g.tr if any(st["act"]["a"] in ("HeaderPageBad", "HeaderCtrlBad", "RowBad") for st in t["steps"])]
-    run_faulty(ctx, drv, faulty, lib, tab)
-    if faulty:
-        ctx.sample(dict(source="Gen_TtxFaults", mode=faulty[0]["mode"], actions=[st["act"] for st in faulty[0]["steps"]]))
-    clean = [t for t in g.tr if t not in faulty]
+    if not quick:
+        neg = tlc.run("MC_TtxFaults", "MC_TtxX26_neg", timeout=600, workers=1, heap="2g")
+        ctx.add_mc(neg, "MC TtxX26 negative (drop only the damaged triplet)")
+        if not neg.violation:
+            ctx.violate("mc", "mc:negative-test:RuleTriplet", "NotMisplaced does not tell the two rules for a lost triplet apart")
+        old = tlc.run("MC_TtxAssembly", "MC_TtxAsmFaults_t", timeout=2400, workers=8, heap="8g")
+        ctx.add_mc(old, "MC TtxAssembly with fault actions")
+        if old.violation:
+            ctx.violate("mc", "mc:%s:%s" % (old.violation["kind"], old.violation["name"]), old.violation["text"][:3000])
+    behs, bases = [], []
+    for (cfg, per, cap), g in zip(QUICK_GEN if quick else THOROUGH_GEN, res[1:-1]):
+        ctx.add_mc(g, "GEN " + cfg)
+        faulty = [t for t in g.tr if faults_of(t)]
+        sel = stratified(faulty, per, cap, ctx.seed)
+        ctx.notes.append("%s: %d behaviours, %d with faults in %d strata, %d replayed" % (cfg, g.n_tr, len(faulty), len({shape(b) for b in faulty}), len(sel)))
+        behs += sel
+        bases += [t for t in g.tr if not faults_of(t)]
+    g = res[-1]
+    ctx.add_mc(g, "GEN simulate")
+    ctx.notes.append("random walks: %d" % len(g.tr))
+    behs += g.tr
+    nbad = run_faulty(ctx, drv, behs, lib, tab, raw, "Gen_TtxFaults")
+    for b in behs[:2]:
+        ctx.sample(dict(source="Gen_TtxFaults", mode=b["mode"], packets=[brief_act(st["act"]) for st in b["steps"]],
+                        terminated=[[dict(pg=v["pg"], sub=v["sub"], rows=[c for c in v["rows"] if c], shown=v["shown"]) for v in st["term"]] for st in b["steps"]],
+                        final=[[v["pg"], v["sub"]] for v in b["final"]]))
     rnd = random.Random(ctx.seed)
-    rnd.shuffle(clean)
-    n = single_bit_pass(ctx, drv, clean[:12 if quick else 150], lib, tab, per_base=250 if quick else 100000)
-    ctx.notes.append("single-bit variants replayed: %d" % n)
+    walks = list(g.tr)
+    rnd.shuffle(walks); rnd.shuffle(bases)
+    tb = walks[:8 if quick else 30]
+    n = twin_pass(ctx, drv, tb, lib, tab, per_base=260 if quick else 100000, err2_per_base=40 if quick else 100000)
+    if tb:
+        ctx.sample(dict(source="twin pass base", mode=tb[0]["mode"], packets=[brief_act(st["act"]) for st in tb[0]["steps"]]))
+    ctx.notes.append("damaged transmissions replayed: %d, single-bit / address-fault variants replayed: %d" % (len(behs), n))
     ctx.cov["exhaustive"] = False
 
 
 def replay(ctx, rp):
-    from vlib import build as b
-    drv = b.build_driver("drv_ttx")
+    drv = vbuild.build_driver("drv_ttx")
     r = rp["replay"]
-    if r.get("kind") == "single-bit":
-        res = core.run_seq_driver([drv], [r["clean"], r["script"]], env=build_env())
-        if res[0]["lines"] != res[1]["lines"]:
-            ctx.violate("replay", rp["key"], "the damaged run still differs from its error-free twin", r)
+    if r.get("kind") == "twin":
+        clean, v, skip = r["clean"], r["script"], r.get("skip")
+        res = core.run_seq_driver([drv], [clean, v], env=vbuild.san_env())
+        a, b = res[0]["lines"], list(res[1]["lines"])
+        if skip is not None and len(b) > skip:
+            own = b[skip]; del b[skip]
+            if own.get("ev") or own.get("ev2"):
+                ctx.violate("replay", rp["key"], "the damaged packet still raises events", r)
+        if a != b:
+            ctx.violate("replay", rp["key"], "the damaged run still differs from its twin", r)
     else:
-        lib, tab = c02.setup(ctx)
         ctx.seed = r.get("seed", ctx.seed)
-        run_faulty(ctx, drv, [r["beh"]], lib, tab)
+        lib, tab, raw = setup(ctx)
+        run_faulty(ctx, drv, [r["beh"]], lib, tab, raw, "replay")
